@@ -109,11 +109,20 @@ Definition time_eqb (a b : time) : bool := Z.eqb (ns a) (ns b) && Z.eqb (off a) 
 (* equality of Predicate.String(): quoted id and the anchor rendered in its own zone *)
 Definition pred_print_eqb (p q : pred) : bool := N.eqb (pid p) (pid q) && opt_eqb time_eqb (panchor p) (panchor q).
 
+(* samePredicate of memory.go (after fix F19): same id, same type and, when temporal, Equal anchors *)
+Definition same_predicate (p q : pred) : bool :=
+  N.eqb (pid p) (pid q) &&
+  match panchor p, panchor q with
+  | None, None => true
+  | Some a, Some b => Z.eqb (ns a) (ns b)
+  | _, _ => false
+  end.
+
 (* the "pQuery != nil && <differs from t.Predicate()>" test at the top of the three filter loops *)
 Definition query_pred_ok (v : variant) (qp : option pred) (t : triple) : bool :=
   match qp with
   | None => true
-  | Some q => if v_inst v then pkey_eqb (pkey_of q) (pkey_of (tpred t)) else pred_print_eqb q (tpred t)
+  | Some q => if v_inst v then same_predicate q (tpred t) else pred_print_eqb q (tpred t)
   end.
 
 (* the predicate the filter looks at: the triple's predicate, or the predicate boxed in the object *)
